@@ -61,7 +61,7 @@ def check(tier, vseed, args):
             job, kind = alljobs[i]
             return c12.sweep_one(job, kind)
 
-        res = core.run_pool(do, range(len(alljobs)), init_fn=_init)
+        res = core.run_pool(do, range(len(alljobs)), init_fn=_init, fini_fn=cleanup)
         nfired = 0
         for i in range(len(alljobs)):
             r = res[i]
@@ -88,7 +88,7 @@ def check(tier, vseed, args):
     def do_run(idx):
         return c12.one_run(vseed, idx, tier)
 
-    res = core.run_pool(do_run, range(first, first + runs), init_fn=_init)
+    res = core.run_pool(do_run, range(first, first + runs), init_fn=_init, fini_fn=cleanup)
     digests, opseqs, samples = [], set(), []
     sits = set()
     simtime = 0
